@@ -157,6 +157,21 @@ ShortSigAt(j) ==
   IN  [i |-> 0, op |-> "tx.sign", fam |-> "shortsig",
        in |-> [doc |-> FindShort(f, target, 5000 * j), key |-> SignKeys[2]]]
 
+\* ---- W: Transaction::encode with signatures whose r and s have EVERY byte width 1..32 -------------------
+\* (r of w bytes, s of 33 - w bytes; values all-FF / one followed by zeros; n - 1 for the full width)
+WidthScalar(w, hi) ==
+  IF w = 32 THEN BnFixed(BnSub(CurveN, <<1>>), 32)
+  ELSE PadLeft(IF hi THEN Rep(w, 255) ELSE <<1>> \o Zeros(w - 1), 32)
+NSigWidth == 32 * 3 * 2
+SigWidthAt(j) ==
+  LET w    == 1 + ((j - 1) % 32)
+      kind == Kinds[1 + (((j - 1) \div 32) % 3)]
+      hi   == (j - 1) \div 96 = 1
+      sig  == [r |-> WidthScalar(w, hi), s |-> WidthScalar(33 - w, ~hi), par |-> w % 2]
+      text == <<48, 120>> \o HexLower(sig.r) \o HexLower(sig.s) \o HexLower(<<27 + sig.par>>)
+  IN  [i |-> 0, op |-> "tx.encode", fam |-> "sigwidth",
+       in |-> [doc |-> MkDoc(Default(kind, <<13, j>>)), sigtext |-> Utf8ToStr(text)]]
+
 \* ---- F: random documents --------------------------------------------------
 RandomAt(j) ==
     LET kind == Kinds[1 + PrngNat(K("rk", <<j>>), 3)]
